@@ -495,6 +495,29 @@ def check_lookup(st, tr, tm, r, cx, samples=None):
                         return
 
 
+def check_lookup_infinite(st, tr, tm, r, cx):
+    """times beyond every sample, taken to the limit: +inf is after the last sample and -inf before the first one, in any
+    time unit ('closest' is left out: every sample is equally far)"""
+    T, u = tm["T"], tm["unit"]
+    for sign, v in (("+inf", math.inf), ("-inf", -math.inf)):
+        u2 = r.choice(list(si.TIME))
+        form = r.choice(["number", "str", "UnitValue"])
+        a = v if form == "number" else ("%r %s" % (v, u2) if form == "str" else st.UnitValue(v, u2))
+        for pol in ("infeq", "supeq"):
+            want = (len(T) - 1 if pol == "infeq" else None) if v > 0 else (None if pol == "infeq" else 0)
+            try:
+                got = tr.get_sample_index(a, pol)
+            except Exception as e:
+                cx.report("exception on valid call", call="get_sample_index", policy=pol, position=sign, form=form, query=repr(a),
+                          error="%s: %s" % (type(e).__name__, e))
+                continue
+            cx.count("lookup_infinite_times")
+            ok = (got is None) if want is None else (got is not None and not isinstance(got, bool) and int(got) == want)
+            if not ok:
+                cx.report("get_sample_index differs from brute force", accessor="lookup", policy=pol, position=sign, form=form,
+                          query=repr(a), got=repr(got), expected=want, nsamples=len(T))
+
+
 _NPI = []
 
 
@@ -589,6 +612,7 @@ def run_shape(case):
             check_accessors(st, np, tr, info, r, cx)
             if j == 0 or (kind == "graph" and case.get("more_lookups")):
                 check_lookup(st, tr, tm, r, cx, lookup_samples)
+                check_lookup_infinite(st, tr, tm, r, cx)
             if len(written) < 2:
                 s_, n_, c_ = r.randrange(S), r.randrange(N), r.randrange(C)
                 written.append({"space": _space_brief(sp), "data_variant": variant, "data_units": dwant,
